@@ -161,10 +161,16 @@ def _taps(sched, box, obs: Obs, guide=None):
 
     orig_is_set, orig_notify = D.Event.is_set, D.Condition.notify
 
+    def after_shared_access(tag):
+        # an unsynchronised shared field was just read / written: that is an interleaving point
+        if role() is not None and not sched.aborting:
+            orig_yp(tag)
+
     def is_set(self):
         v = orig_is_set(self)
         if is_flag(self):
             log(f"ldflag:{1 if v else 0}")
+            after_shared_access("tap.flag.read")
         return v
 
     def notify(self, n=1):
@@ -182,12 +188,14 @@ def _taps(sched, box, obs: Obs, guide=None):
         v = self.__dict__.get("_wait_cond")
         if self is box.get("thread"):
             log(f"ldwc:{0 if v is None else 1}")
+            after_shared_access("tap.wc.read")
         return v
 
     def wc_set(self, v):
         self.__dict__["_wait_cond"] = v
         if self is box.get("thread"):
             log(f"stwc:{0 if v is None else 1}")
+            after_shared_access("tap.wc.write")
 
     had_wc = "_wait_cond" in _TaskThread.__dict__
     saved_wc = _TaskThread.__dict__.get("_wait_cond")
@@ -388,7 +396,8 @@ def run_case(case: dict, guide_schedule=None) -> Obs:
                 t.join()
             return "joined"
 
-    out = run_scenario(f"c11:{seed}", body, policy="pct", change_points=[] if k is None else [k],
+    out = run_scenario(f"c11:{seed}", body, policy="pct",
+                       change_points=[] if k is None else (list(k) if isinstance(k, (list, tuple)) else [k]),
                        trace_funcs=_trace_funcs(), max_steps=30000)
     obs.deadlock, obs.budget = out.deadlock, out.budget
     obs.error = None if out.error is None else f"{type(out.error).__name__}: {out.error}"[:300]
@@ -401,6 +410,11 @@ def run_case(case: dict, guide_schedule=None) -> Obs:
 # ---------------------------------------------------------------------------------------------------------
 # the property, evaluated directly on a run
 # ---------------------------------------------------------------------------------------------------------
+
+def _worker(case: dict) -> Obs:
+    core.ensure_repo_on_path()
+    return run_case(case)
+
 
 def oracle(case: dict, obs: Obs) -> Optional[str]:
     kind = case["kind"]
@@ -489,40 +503,61 @@ class C11(Prop):
         for kind in KINDS:
             for mode in ("task-first", "stop-first"):
                 vs.append(({"kind": kind, "mode": mode, "seed": 0}, 1))
-            vs.append(({"kind": kind, "mode": "task-first", "late": True, "seed": 0}, 1 if thorough else 2))
-        seeds = range(9) if thorough else [ctx.rng.randrange(9), ctx.rng.randrange(9)]
+            vs.append(({"kind": kind, "mode": "task-first", "late": True, "seed": 0}, 1))
+        # the stop request arrives during a later wait / loop iteration (virtual time passes first)
+        for (kind, delay, sd) in (("mixed", 60.0, 0), ("mixed", 130.0, 0), ("mixed", 60.0, 1), ("mixed", 60.0, 2),
+                                  ("loop", 100.0, 0), ("sleep", 60.0, 0), ("recvT", 80.0, 0)):
+            for mode in ("task-first", "stop-first"):
+                vs.append(({"kind": kind, "mode": mode, "delay": delay, "seed": sd}, 1 if thorough else 2))
+        seeds = list(range(9)) if thorough else [ctx.rng.randrange(9), ctx.rng.randrange(9)]
         for sd in seeds:
             for kind in ("recvN", "recvT", "mixed"):
                 for mode in ("task-first", "stop-first"):
-                    vs.append(({"kind": kind, "mode": mode, "pub": 2, "seed": sd}, 1 if thorough else 3))
+                    vs.append(({"kind": kind, "mode": mode, "pub": 2, "seed": sd}, 1 if thorough else 2))
             for kind in (("sleep", "recvN", "recvT", "loop", "mixed") if thorough else ("recvN", "loop", "sleep")):
                 for mode in ("task-first", "stop-first"):
-                    vs.append(({"kind": kind, "mode": mode, "two": True, "seed": sd}, 1 if thorough else 3))
+                    vs.append(({"kind": kind, "mode": mode, "two": True, "seed": sd}, 1 if thorough else 2))
             if thorough:
                 for kind in ("recvN", "recvT"):
                     vs.append(({"kind": kind, "mode": "stop-first", "two": True, "pub": 2, "seed": sd}, 1))
         return vs
 
-    def _sweep(self, ctx: Ctx, res: Result, variants, stop_at_first: bool = False, budget_s: float = 1e9):
-        """Run every variant for every change point; return list of (case, obs)."""
-        runs = []
+    def _sweep(self, ctx: Ctx, res: Result, variants, stop_at_first: bool = False, budget_s: float = 1e9, pairs: int = 0):
+        """Run every variant for every change point (in worker processes; each run is a function of its case only).
+        Returns list of (case, obs)."""
+        import multiprocessing as mp
+        import os
         t0 = _time.time()
-        fails_by_sig: dict = {}
-        for (base, stride) in variants:
-            b = run_case({**base, "k": None})
-            runs.append(({**base, "k": None}, b))
-            lo, hi = b.k0, b.steps + 12
-            off = ctx.rng.randrange(stride) if stride > 1 else 0
-            for k in range(lo + off, hi, stride):
-                case = {**base, "k": k}
-                runs.append((case, run_case(case)))
-                if _time.time() - t0 > budget_s:
-                    break
-            if stop_at_first and any(oracle(c, o) for (c, o) in runs):
-                break
-            if _time.time() - t0 > budget_s:
-                res.count("sweep_cut_by_time_budget")
-                break
+        nproc = max(1, min(8, (os.cpu_count() or 2) - 1))
+        runs: list = []
+        with mp.get_context("fork").Pool(nproc) as pool:
+            bases = [{**b, "k": None} for (b, _) in variants]
+            base_obs = pool.map(_worker, bases, chunksize=1)
+            runs += list(zip(bases, base_obs))
+            batches = []
+            for (base, stride), b in zip(variants, base_obs):
+                lo, hi = b.k0, b.steps + 12
+                off = ctx.rng.randrange(stride) if stride > 1 else 0
+                cases = [{**base, "k": k} for k in range(lo + off, hi, stride)]
+                for _ in range(pairs):
+                    k1, k2 = sorted(ctx.rng.sample(range(lo, hi), 2))
+                    cases.append({**base, "k": [k1, k2]})
+                batches.append(cases)
+            if stop_at_first:
+                for cases in batches:
+                    obs = pool.map(_worker, cases, chunksize=8)
+                    runs += list(zip(cases, obs))
+                    if any(oracle(c, o) for (c, o) in zip(cases, obs)) or _time.time() - t0 > budget_s:
+                        break
+            else:
+                flat = [c for cases in batches for c in cases]
+                it = pool.imap(_worker, flat, chunksize=8)
+                for c in flat:
+                    runs.append((c, next(it)))
+                    if _time.time() - t0 > budget_s:
+                        res.count("sweep_cut_by_time_budget")
+                        pool.terminate()
+                        break
         return runs
 
     def _evaluate(self, ctx: Ctx, res: Result, runs, follow: bool = True):
@@ -532,8 +567,8 @@ class C11(Prop):
         for (case, obs) in runs:
             clause = oracle(case, obs)
             nontrivial = any(t == 0 for (t, _) in obs.events) and any(t != 0 for (t, _) in obs.events)
-            res.note_case((case_sig(case), case["mode"], case.get("k"), case.get("pub", 0), case.get("seed", 0),
-                           tuple(obs.events)), nontrivial=nontrivial)
+            res.note_case((case_sig(case), case["mode"], repr(case.get("k")), case.get("pub", 0), case.get("seed", 0),
+                           case.get("delay", 0), tuple(obs.events)), nontrivial=nontrivial)
             res.count(f"kind_{case_sig(case)}")
             res.count(f"mode_{case['mode']}")
             res.count("ops_observed", len(obs.events))
@@ -610,7 +645,7 @@ class C11(Prop):
         core.ensure_repo_on_path()
         self._native_exploration(ctx, res)
         variants = self._variants(ctx, not ctx.quick)
-        runs = self._sweep(ctx, res, variants, budget_s=ctx.scale(75, 700))
+        runs = self._sweep(ctx, res, variants, budget_s=ctx.scale(70, 700), pairs=ctx.scale(0, 150))
         ctx.log(f"sweep: {len(runs)} schedules of {len(variants)} scenarios")
         self._evaluate(ctx, res, runs)
         return res
